@@ -667,8 +667,7 @@ pub fn encode_with_fixed_block_size<T: Source>(
     // only one frame that is shorter than `block_size`.
     stream
         .stream_info_mut()
-        .set_block_sizes(block_size, block_size)
-        .unwrap();
+        .set_block_sizes(block_size, block_size)?;
 
     loop {
         let read_samples = src.read_samples(block_size, &mut framebuf_and_context)?;
